@@ -350,3 +350,52 @@ each_harness!(each_n0, 0);
 each_harness!(each_n1, 1);
 //@K props=C14,C01 tier=thorough label=bnd feat=std fn=<EachasClause>::deconstruct,Each::call bound=patterns=2 timeout=1200
 each_harness!(each_n2, 2);
+
+/// DynBuilderWrapper::push_returner_result (C14: "a configured return that cannot be produced" is remembered and rejected at
+/// construction by MockAssembler::push): Ok(returner) -> pushed at the running index; Err(e) -> nothing pushed, the FIRST error
+/// is kept.
+//@K props=C14,C02 tier=quick label=full feat=std fn=DynBuilderWrapper::push_returner_result
+#[kani::proof]
+#[kani::unwind(3)]
+fn push_returner_result_contract() {
+    use crate::output::{IntoReturn, OutputError};
+    use crate::responder::IntoReturner;
+    let (mut b, s) = any_state(PatternMatchMode::InAnyOrder);
+    let pre_err: u8 = kani::any();
+    kani::assume(pre_err < 3);
+    b.responder_error = match pre_err {
+        0 => None,
+        1 => Some(OutputError::OwnershipRequired),
+        _ => Some(OutputError::NoMutexApi),
+    };
+    let which: u8 = kani::any();
+    kani::assume(which < 3);
+    let mut w = DynBuilderWrapper::Owned(b);
+    let v: u8 = kani::any();
+    let arg: Result<crate::responder::Returner<F8>, OutputError> = match which {
+        0 => Ok(IntoReturner::<F8>::into_returner(<u8 as IntoReturn<crate::output::Owning<u8>>>::into_return(v).ok().unwrap())),
+        1 => Err(OutputError::OwnershipRequired),
+        _ => Err(OutputError::NoMutexApi),
+    };
+    w.push_returner_result::<F8>(arg);
+    let nb = w.into_owned();
+    assert!(nb.current_response_index == s.idx);
+    assert!(ch::peek_exp(&nb.count_expectation) == (s.min, s.k));
+    let code = |e: &Option<OutputError>| match e {
+        None => 0u8,
+        Some(OutputError::OwnershipRequired) => 1,
+        Some(OutputError::NoMutexApi) => 2,
+    };
+    if which == 0 {
+        assert!(nb.responders.len() == 1);
+        assert!(nb.responders[0].response_index == s.idx);
+        assert!(output_of(&nb.responders[0].responder) == Some(v));
+        assert!(code(&nb.responder_error) == pre_err);
+    } else {
+        assert!(nb.responders.len() == 0);
+        assert!(code(&nb.responder_error) == if pre_err != 0 { pre_err } else { which });
+    }
+    kani::cover!(which == 0);
+    kani::cover!(which == 2 && pre_err == 1);
+    core::mem::forget(nb);
+}
